@@ -1,0 +1,135 @@
+//go:build verif
+
+// Contracts for PersistentBlockList (properties C02, C03, C04, C07).
+// Comment-only file.
+package local
+
+// prefA(bl, a): number of epochs that belong to blocks with an absolute block
+// number below a (absolute = position counted from the first block the list
+// ever had; the block at index i has absolute number totalBlocksReleased + i).
+// Absolute numbering keeps the function stable under PopFront.
+//@ ghost prefA(ref, int) int
+
+//@ pure pblCounts(bl) = len(bl.epochHashSeeds) == len(bl.epochLastAbsoluteBlockIndex)
+//@     && 0 <= bl.synchronizedEpochs && bl.synchronizedEpochs <= bl.synchronizingEpochs
+//@     && bl.synchronizingEpochs <= len(bl.epochHashSeeds) && bl.totalBlocksReleased >= 0
+//@     && 0 <= bl.blocksReleasing && bl.blocksReleasing <= len(bl.blocksToRelease)
+//@ pure pblOffsets(bl) = forall i :: 0 <= i && i < len(bl.blocks) ==>
+//@     0 <= bl.blocks[i].synchronizedOffsetBytes && bl.blocks[i].synchronizedOffsetBytes <= bl.blocks[i].synchronizingOffsetBytes
+//@     && bl.blocks[i].synchronizingOffsetBytes <= bl.blocks[i].writtenOffsetBytes
+// Every block's epochs are counted by prefA; together they are all epochs.
+//@ pure pblPrefix(bl) = (forall i :: 0 <= i && i < len(bl.blocks) ==> bl.blocks[i].epochCount >= 0
+//@         && prefA(bl, bl.totalBlocksReleased + i + 1) == prefA(bl, bl.totalBlocksReleased + i) + bl.blocks[i].epochCount)
+//@     && prefA(bl, bl.totalBlocksReleased + len(bl.blocks)) - prefA(bl, bl.totalBlocksReleased) == len(bl.epochHashSeeds)
+//@ pure pblMono(bl) = forall a, b :: bl.totalBlocksReleased <= a && a <= b && b <= bl.totalBlocksReleased + len(bl.blocks)
+//@     ==> prefA(bl, a) <= prefA(bl, b)
+// Epoch e (relative to the oldest one kept) ends in block epochLast[e], which
+// is a block of the list, and e is one of that block's epochs.
+//@ pure pblEpochs(bl) = forall e :: 0 <= e && e < len(bl.epochLastAbsoluteBlockIndex) ==>
+//@     bl.totalBlocksReleased <= bl.epochLastAbsoluteBlockIndex[e]
+//@     && bl.epochLastAbsoluteBlockIndex[e] < bl.totalBlocksReleased + len(bl.blocks)
+//@     && prefA(bl, bl.epochLastAbsoluteBlockIndex[e]) <= prefA(bl, bl.totalBlocksReleased) + e
+//@     && prefA(bl, bl.totalBlocksReleased) + e < prefA(bl, bl.epochLastAbsoluteBlockIndex[e] + 1)
+// Wake-up invariants (C07): work pending implies the channel is unblocked.
+//@ pure pblWake(bl) = (bl.synchronizedEpochs < len(bl.epochHashSeeds) ==> !bl.blockPutWakeup.isBlocking)
+//@     && (len(bl.blocksToRelease) > 0 ==> !bl.blockReleaseWakeup.isBlocking)
+//@     && (bl.blockPutWakeup.isBlocking <==> !closed(bl.blockPutWakeup.channel))
+//@     && (bl.blockReleaseWakeup.isBlocking <==> !closed(bl.blockReleaseWakeup.channel))
+//@     && bl.blockPutWakeup.channel != nil && bl.blockReleaseWakeup.channel != nil
+//@     && bl.blockPutWakeup.channel != bl.blockReleaseWakeup.channel
+// No open epoch means nothing has been written since the last sync started.
+//@ pure pblK(bl) = len(bl.epochHashSeeds) == bl.synchronizingEpochs ==>
+//@     (forall i :: 0 <= i && i < len(bl.blocks) ==> bl.blocks[i].writtenOffsetBytes == bl.blocks[i].synchronizingOffsetBytes)
+//@ pure pblInv(bl) = pblCounts(bl) && pblOffsets(bl) && pblPrefix(bl) && pblMono(bl) && pblEpochs(bl) && pblWake(bl) && pblK(bl)
+
+// ---- Block and BlockAllocator (interfaces): they do not touch the list.
+//@ iface BlockAllocator.NewBlock
+//@   modifies nothing
+//@   ensures err == nil ==> result0 != nil
+//@ iface BlockAllocator.NewBlockAtLocation
+//@   modifies nothing
+//@   ensures result1 ==> result0 != nil
+//@ iface Block.Release
+//@   modifies released(self)
+//@   ensures released(self) == old(released(self)) + 1
+//@ iface Block.Get
+//@   modifies nothing
+//@   ensures result != nil
+//@ iface Block.HasSpace
+//@   modifies nothing
+//@ iface Block.Put
+//@   modifies nothing
+//@   ensures result != nil
+
+// ---- notification channels
+//@ func newNotificationChannel
+//@   inline
+//@ func (*notificationChannel).block
+//@   requires nc.channel != nil && (nc.isBlocking <==> !closed(nc.channel))
+//@   ensures [blocking] nc.isBlocking && !closed(nc.channel) && nc.channel != nil
+//@   ensures [kept-if-was-blocking] old(nc.isBlocking) ==> nc.channel == old(nc.channel)
+//@   ensures [fresh-otherwise] !old(nc.isBlocking) ==> fresh(nc.channel)
+//@ func (*notificationChannel).unblock
+//@   requires nc.channel != nil && (nc.isBlocking <==> !closed(nc.channel))
+//@   ensures [unblocked] !nc.isBlocking && closed(nc.channel) && nc.channel == old(nc.channel)
+
+// ---- resolver (C02 K02.2, C06)
+//@ func (*PersistentBlockList).BlockReferenceToBlockIndex
+//@   opt wraps
+//@   requires pblInv(bl)
+//@   ensures [in-range] result2 ==> 0 <= result0 && result0 < len(bl.blocks)
+//@ func (*PersistentBlockList).BlockIndexToBlockReference
+//@   opt wraps
+//@   requires pblInv(bl) && 0 <= blockIndex && blockIndex < len(bl.blocks)
+//@   requires [covered] len(bl.epochHashSeeds) > 0
+//@         && bl.totalBlocksReleased + blockIndex <= bl.epochLastAbsoluteBlockIndex[len(bl.epochLastAbsoluteBlockIndex) - 1]
+
+// ---- mutators
+//@ func (*PersistentBlockList).PopFront
+//@   opt wraps
+//@   opt contents
+//@   requires pblInv(bl) && len(bl.blocks) >= 1
+//@   ensures [inv] pblInv(bl)
+//@   ensures [one-less] len(bl.blocks) == old(len(bl.blocks)) - 1 && bl.totalBlocksReleased == old(bl.totalBlocksReleased) + 1
+//@   ensures [deferred-release] len(bl.blocksToRelease) == old(len(bl.blocksToRelease)) + 1
+
+//@ func (*PersistentBlockList).PushBack
+//@   opt contents
+//@   requires pblInv(bl) && bl.blockAllocator != nil
+//@   exitghost prefA(bl, bl.totalBlocksReleased + len(bl.blocks)) := old(prefA(bl, bl.totalBlocksReleased + len(bl.blocks))) when err == nil
+//@   ensures [inv] pblInv(bl)
+//@   ensures [refused-when-closed] bl.closedForWriting ==> err != nil
+//@   ensures [count] (err == nil ==> len(bl.blocks) == old(len(bl.blocks)) + 1) && (err != nil ==> len(bl.blocks) == old(len(bl.blocks)))
+
+//@ func (*PersistentBlockList).NotifySyncStarting
+//@   requires pblInv(bl)
+//@   ensures [inv] pblInv(bl)
+//@   ensures [closed] bl.closedForWriting <==> (old(bl.closedForWriting) || isFinalSync)
+//@   ensures [all-epochs-syncing] bl.synchronizingEpochs == len(bl.epochHashSeeds)
+//@   ensures [all-data-syncing] forall i :: 0 <= i && i < len(bl.blocks) ==> bl.blocks[i].synchronizingOffsetBytes == bl.blocks[i].writtenOffsetBytes
+//@   loop 0 invariant -1 <= rangeindex && pblCounts(bl) && pblPrefix(bl) && pblMono(bl) && pblEpochs(bl) && pblWake(bl)
+//@   loop 0 invariant bl.synchronizingEpochs == len(bl.epochHashSeeds) && unchanged(len(bl.blocks)) && unchanged(bl.synchronizedEpochs)
+//@   loop 0 invariant forall i :: 0 <= i && i < len(bl.blocks) ==> 0 <= bl.blocks[i].synchronizedOffsetBytes
+//@         && bl.blocks[i].synchronizedOffsetBytes <= bl.blocks[i].synchronizingOffsetBytes && bl.blocks[i].synchronizingOffsetBytes <= bl.blocks[i].writtenOffsetBytes
+//@   loop 0 invariant forall i :: 0 <= i && i <= rangeindex && i < len(bl.blocks) ==> bl.blocks[i].synchronizingOffsetBytes == bl.blocks[i].writtenOffsetBytes
+//@   loop 0 invariant bl.closedForWriting <==> (old(bl.closedForWriting) || isFinalSync)
+
+//@ func (*PersistentBlockList).NotifySyncCompleted
+//@   requires pblInv(bl)
+//@   ensures [inv] pblInv(bl)
+//@   ensures [epochs-exposed] bl.synchronizedEpochs == bl.synchronizingEpochs
+//@   ensures [data-exposed] forall i :: 0 <= i && i < len(bl.blocks) ==> bl.blocks[i].synchronizedOffsetBytes == bl.blocks[i].synchronizingOffsetBytes
+//@   loop 0 invariant -1 <= rangeindex && pblCounts(bl) && pblPrefix(bl) && pblMono(bl) && pblEpochs(bl) && pblWake(bl) && pblK(bl)
+//@   loop 0 invariant bl.synchronizedEpochs == bl.synchronizingEpochs && unchanged(len(bl.blocks))
+//@   loop 0 invariant forall i :: 0 <= i && i < len(bl.blocks) ==> 0 <= bl.blocks[i].synchronizedOffsetBytes
+//@         && bl.blocks[i].synchronizedOffsetBytes <= bl.blocks[i].synchronizingOffsetBytes && bl.blocks[i].synchronizingOffsetBytes <= bl.blocks[i].writtenOffsetBytes
+//@   loop 0 invariant forall i :: 0 <= i && i <= rangeindex && i < len(bl.blocks) ==> bl.blocks[i].synchronizedOffsetBytes == bl.blocks[i].synchronizingOffsetBytes
+
+// Blocks are released only here (after the state file that no longer lists them
+// has been written): exactly the ones that had been popped when the state was taken.
+//@ func (*PersistentBlockList).NotifyPersistentStateWritten
+//@   requires pblInv(bl)
+//@   ensures [inv] pblInv(bl)
+//@   ensures [released-exactly] len(bl.blocksToRelease) == old(len(bl.blocksToRelease)) - old(bl.blocksReleasing) && bl.blocksReleasing == 0
+//@   loop 0 invariant 0 <= i && i <= bl.blocksReleasing && unchanged(bl.blocksReleasing) && unchanged(len(bl.blocksToRelease))
+//@   loop 0 invariant pblCounts(bl) && pblOffsets(bl) && pblPrefix(bl) && pblMono(bl) && pblEpochs(bl) && pblWake(bl) && pblK(bl)
